@@ -311,6 +311,9 @@ func Classify(op string, in string, args []uint64) string {
 		if x < 0 {
 			return "neg"
 		}
+		if x >= 9223372036854775808 {
+			return ">=2^63"
+		}
 		if x > 2147483647 {
 			return "big"
 		}
@@ -344,6 +347,9 @@ func Classify(op string, in string, args []uint64) string {
 		}
 		return a + "," + b
 	case "convert_i32_s", "convert_i32_u", "convert_i64_s", "convert_i64_u":
+		if base == "convert_i64_u" && int64(args[0]) < 0 {
+			return "u>=2^63"
+		}
 		l := Label(in[0], args[0])
 		if l == "neg" || l == "pos" {
 			v := args[0]
